@@ -56,7 +56,7 @@ type Spec struct {
 	L0RetMs    int    `json:"l0_ret_ms"`
 	Verify     bool   `json:"verify_compaction"`
 	Reset      bool   `json:"reset_local_state"`
-	Profile    string `json:"profile,omitempty"` // "" = full operation set; "maint" = F13/F14 demonstration (sync/checkpoint/snapshot/compact only)
+	Profile    string `json:"profile,omitempty"` // "" = full operation set; "maint" = sync/checkpoint/snapshot/compact only; "ckpt-interrupt" = checkpoints, CRC64, syncs, snapshots with 0.1-3 s caller deadlines (demonstration of the interrupted-checkpoint class); neither is in the default case list
 }
 
 // Event is one harness-issued call with call/return stamps of one monotonic clock.
@@ -1128,6 +1128,10 @@ func (c *child) opTable() []opDef {
 		}
 	}
 	t5 := 20 * time.Second // the daemon's own /sync default is 30 s; deadline-induced failures are not the point here
+	if c.spec.Profile == "ckpt-interrupt" {
+		// demonstration profile: callers' deadlines expire inside checkpoints
+		t5 = time.Duration(100+rand.Intn(2900)) * time.Millisecond
+	}
 	ops := []opDef{
 		{"DB.Sync", 6, onOpen("DB.Sync", func(g *gctx, m *mainDB, d *litestream.DB) {
 			ctx, cancel := ctxT(t5)
@@ -1325,6 +1329,16 @@ func (c *child) opTable() []opDef {
 			defer cancel()
 			c.call(g, "ResetLocalState", m.name, func() error { return d.ResetLocalState(ctx) })
 		})})
+	}
+	if c.spec.Profile == "ckpt-interrupt" {
+		keep := map[string]bool{"DB.Sync": true, "SyncAndWait": true, "Checkpoint": true, "CRC64": true, "Snapshot": true, "status": true, "Store.CompactDB": true}
+		var f []opDef
+		for _, o := range ops {
+			if keep[o.name] {
+				f = append(f, o)
+			}
+		}
+		ops = f
 	}
 	if c.spec.Profile == "maint" {
 		keep := map[string]bool{"DB.Sync": true, "SyncAndWait": true, "Checkpoint": true, "Snapshot": true, "Compact": true, "Store.CompactDB": true, "status": true, "Replica.Sync": true}
